@@ -773,7 +773,7 @@ class CostFunction_GaussApproximation(CostFunction):
             return type(self)(
                 errors_to_use="pointwise",
                 add_constraint_cost=self._add_constraint_cost,
-                add_determinant_cost=self._add_determinant_cost,
+                add_determinant_cost=self._add_determinant_cost_ga,
             )
         else:
             return None
